@@ -157,6 +157,20 @@ CLAIMED = {
          'rho-a optimality needs the rearrangement inequality (not proved: candidate search in the oracle); Pearson / whitened variants '
          'are covered by correspondence (corr) or by ordering / invariance oracles (cov); the executable instance rounds to 30 digits.',
          'DESIGN.md section 7, C07'),
+    'C08': ('Coq proofs over R: the normal-equation / Karush-Kuhn-Tucker point returned by the (non-negative) regression fitter maximises '
+         'the summed (whitened) cosine / correlation with the training RDMs over ALL (non-negative) weights; selection = first argmax; '
+         'interpolation segment optimum; unit norm; linear predictions + in-Coq correspondence of all fitters and model classes',
+         'Theorems: Cauchy-Schwarz for any symmetric PSD form; sum_i sim(q,d_i) = <q, sum_i d_i/|d_i|>/|q|; the pooled target used by '
+         'fit_regress (RMS / std / V-norm normalised mean, shifted by a constant, re-centred for corr_cov) has the same inner products '
+         'with the prepared basis up to a positive factor; hence fit_regress (solve validated by G*theta=b) maximises the criterion over all '
+         'admissible weights and fit_regress_nn (KKT point over the active sets) over all non-negative ones, normalised or not; on every '
+         'segment the interpolation weight lies in [0,1] and beats every convex mixture; fit_select returns the first best candidate; '
+         'normalise gives unit norm; basis\'*theta is linear in theta. Correspondence (exact Q, in Coq): fit_regress / fit_regress_nn / '
+         'fit_select / fit_interpolate / fit_optimize(_positive) / Model.fit with pattern_idx (repeats), sigma_k, normalize; predictions '
+         'of the four model classes incl. dict round trip.',
+         'the whitening matrix is assumed symmetric PSD in the theorems; BFGS fitters are only bounded by the proven optimum; ridge '
+         'weight is 0 throughout (as the property states).',
+         'DESIGN.md section 7, C08'),
 }
 NA_REASON = 'check not built yet in this round (work in progress; see DESIGN.md section 7)'
 
